@@ -13,7 +13,9 @@ Read off the code while building that tie (each is a path the real traces take):
   * a user Close() that loses closeBy to the peer's hang-up still stores closing := user (`forceUser`), so a
     reader may get ErrEOF while closing = user, or ErrConnClosed after a peer close: the error class is
     therefore stated with the ghosts `peerClosed` / `userClosed`, not with the value of `closing`;
-  * the finalizer (run by a user Close) resets the input length to 0 when it finds the buffer empty (`closeBuf`).
+  * the finalizer (run by a user Close) resets the input length to 0 when it finds the buffer empty (`closeBuf`);
+  * since the fix of D20 the loop looks at the length once more after it has seen closing ≠ 0 or received a closer's error (`reChk`): the n bytes and the
+    close may both have arrived between its two loads; the close error is returned only if they are still not there.
 -/
 namespace Netpoll.Conn.Read
 
@@ -38,6 +40,7 @@ inductive RPc where
   | arm (n : Nat)                         -- timed: NewTimer / Reset
   | chkLen (n : Nat) (timed : Bool)       -- `for c.inputBuffer.Len() < n`
   | chkClosing (n : Nat) (timed : Bool)   -- `switch c.status(closing)`
+  | reChk (n : Nat) (timed : Bool) (peer : Bool)  -- closing ≠ 0 seen or a closer's error received (peer: poller / user): `if c.inputBuffer.Len() >= n { return nil }` else the close error (fix D20)
   | wait (n : Nat) (timed : Bool)         -- `<-c.readTrigger` / `select { timer.C, readTrigger }`
   | dblChk (n : Nat)                      -- timer case: `if Len() >= n { return nil }` else ErrReadTimeout
   | ret (n : Nat) (r : Result) (seen : Nat)      -- RET: `if !timer.Stop() { <-timer.C }`; `seen` = Len() at the decision
@@ -105,9 +108,14 @@ def step (s : S) : Act → Option S
       if s.inLen < n then some { s with r := .chkClosing n timed }
       else some { s with r := if timed then .ret n .ok s.inLen else .unstore n .ok s.inLen }
     | .chkClosing n timed =>
-      if s.closing = 2 then some { s with r := if timed then .ret n .errEOF s.inLen else .unstore n .errEOF s.inLen }
-      else if s.closing = 1 then some { s with r := if timed then .ret n .errClosed s.inLen else .unstore n .errClosed s.inLen }
+      if s.closing = 2 then some { s with r := .reChk n timed true }
+      else if s.closing = 1 then some { s with r := .reChk n timed false }
       else some { s with r := .wait n timed }
+    | .reChk n timed peer =>
+      -- the bytes may have been delivered (before the close) after the loop condition was evaluated: look again
+      if s.inLen ≥ n then some { s with r := if timed then .ret n .ok s.inLen else .unstore n .ok s.inLen }
+      else some { s with r := if timed then .ret n (if peer then .errEOF else .errClosed) s.inLen
+                              else .unstore n (if peer then .errEOF else .errClosed) s.inLen }
     | .dblChk n =>
       -- returns directly (the tick has been consumed; no Stop needed)
       if s.inLen ≥ n then some { s with r := .unstore n .ok s.inLen } else some { s with r := .unstore n .timeout s.inLen }
@@ -124,8 +132,8 @@ def step (s : S) : Act → Option S
       let s' := { s with slot := none }
       match t with
       | .data => some { s' with r := .chkLen n timed }
-      | .errClosed => some { s' with r := if timed then .ret n .errClosed s.inLen else .unstore n .errClosed s.inLen }
-      | .errEOF => some { s' with r := if timed then .ret n .errEOF s.inLen else .unstore n .errEOF s.inLen }
+      | .errClosed => some { s' with r := .reChk n timed false }   -- `if err != nil { if Len() >= n { return nil }; return err }`
+      | .errEOF => some { s' with r := .reChk n timed true }
     | _, _ => none
   | .recvTick =>
     match s.r with
